@@ -5,38 +5,58 @@ import Fs.Proofs.Connect
 Statements only (helper lemmas: `Fs/Proofs/Connect.lean`).  Everything is about `Fs.Connect.connect`, the model of
 `FakeSnow.connect` + `FakeSnowflakeConnection.__init__` (conn.py:44-104) **after** the repair
 `C14/schema-without-db`, for *arbitrary* option values and *arbitrary* catalog states `w`;
-`C14_shipped_schema_without_db` is the regression witness for the code as shipped.
+`C14_shipped_schema_without_db` is the regression witness for the code as shipped; `finding_C14_auto_create_db_named_like_builtin_schema`
+is the witness of the recorded finding that makes the full statement `C14_Full` false, and `InEnv` the envelope of the partial theorems.
 `harness/props/c14.py` ties the model to the real code on the complete 1152-configuration product.
 -/
 namespace Fs.C14
 open Fs.Connect
 
-/-- **The ladder is the declarative specification**: for all option values (names in any letter case, given or not,
-    both flags, with or without db_path) and all catalog states, `connect` succeeds and returns exactly the session
-    and the catalog state that `Spec.connect` describes: the database is created iff allowed ∧ named ∧ absent; the
-    schema iff allowed ∧ named ∧ its database is there afterwards ∧ absent; the session has a current database /
+/-- the full statement: the ladder is the declarative specification for all options and all catalog states -/
+def C14_Full : Prop := ∀ (o : Opts) (w : World), connect o w = Spec.connect o w
+
+/-- envelope: connect does not have to attach a database named like a built-in DuckDB schema (MAIN, INFORMATION_SCHEMA,
+    PG_CATALOG).  Connecting to such a database when it already exists is inside the envelope. -/
+def InEnv (o : Opts) (w : World) : Prop := bootstrapFails o w = false
+
+instance (o : Opts) (w : World) : Decidable (InEnv o w) := by unfold InEnv; infer_instance
+
+/-- Known finding `C14/auto-create-db-named-like-builtin-schema`: `C14_Full` is false — with create_database_on_connect=True,
+    `connect(database="main")` on an empty instance attaches MAIN and then raises from the bootstrap instead of returning
+    a session with current database MAIN. -/
+theorem finding_C14_auto_create_db_named_like_builtin_schema : ¬ C14_Full := by
+  intro h
+  have := h { database := some ['m', 'a', 'i', 'n'], schema := none, createDb := true, createSchema := true, dbPath := false }
+            { attached := [], disk := [], paths := [] }
+  revert this
+  decide
+
+/-- **The ladder is the declarative specification** (partial: inside `InEnv`): for all option values (names in any letter
+    case, given or not, both flags, with or without db_path) and all catalog states, `connect` succeeds and returns exactly
+    the session and the catalog state that `Spec.connect` describes: the database is created iff allowed ∧ named ∧ absent;
+    the schema iff allowed ∧ named ∧ its database is there afterwards ∧ absent; the session has a current database /
     schema iff they exist afterwards; names are reported upper-cased. -/
-theorem C14_conforms (o : Opts) (w : World) : connect o w = Spec.connect o w := by
+theorem C14_conforms_partial (o : Opts) (w : World) (he : InEnv o w) : connect o w = Spec.connect o w := by
   unfold connect connectWith
-  simp only [rung_db, rung_schema, rung_context]
+  simp only [show bootstrapFails o w = false from he, Bool.false_eq_true, if_false, rung_db, rung_schema, rung_context]
   obtain ⟨hp, _⟩ := afterSchema_frame o w
   unfold Spec.connect
   simp only [← Spec.afterSchema.eq_1 o w]
   rw [hp]
 
-/-- **connect succeeds in every configuration** -/
-theorem C14_succeeds (o : Opts) (w : World) : ∃ s, (connect o w).1 = .ok s := by
-  rw [C14_conforms]; exact ⟨_, rfl⟩
+/-- **connect succeeds in every configuration** of the envelope -/
+theorem C14_succeeds (o : Opts) (w : World) (he : InEnv o w) : ∃ s, (connect o w).1 = .ok s := by
+  rw [C14_conforms_partial o w he]; exact ⟨_, rfl⟩
 
 /-- **Current database / schema exactly when the objects exist, names reported upper-cased either way**: whatever
     the configuration, after connect the session's `database_set` (`schema_set`) flag equals the existence of the
     requested database (schema) in the catalog state connect leaves behind, and `conn.database` / `conn.schema`
     are the requested names upper-cased. -/
-theorem C14_context_iff_exists (o : Opts) (w : World) (s : Session) (h : (connect o w).1 = .ok s) :
+theorem C14_context_iff_exists (o : Opts) (w : World) (he : InEnv o w) (s : Session) (h : (connect o w).1 = .ok s) :
     s.database = o.database.map upper ∧ s.schema = o.schema.map upper ∧
     s.databaseSet = (truthy o.db && dbExists (connect o w).2 o.DB) ∧
     s.schemaSet = (truthy o.db && truthy o.sc && schemaExists (connect o w).2 o.DB o.SC) := by
-  rw [C14_conforms] at h ⊢
+  rw [C14_conforms_partial o w he] at h ⊢
   simp only [Spec.connect, Outcome.ok.injEq] at h
   subst h
   refine ⟨rfl, rfl, ?_, ?_⟩
@@ -54,10 +74,10 @@ theorem C14_context_iff_exists (o : Opts) (w : World) (s : Session) (h : (connec
 
 /-- **Nothing else is created**: with `create_database_on_connect = False` no catalog is attached and no file is
     made; with `create_schema_on_connect = False` every catalog that was there is exactly as it was. -/
-theorem C14_creates_only_allowed (o : Opts) (w : World) :
+theorem C14_creates_only_allowed (o : Opts) (w : World) (he : InEnv o w) :
     (o.createDb = false → (connect o w).2.attached.map (·.name) = w.attached.map (·.name) ∧ (connect o w).2.disk = w.disk) ∧
     (o.createSchema = false → ∀ c ∈ w.attached, c ∈ (connect o w).2.attached) := by
-  rw [C14_conforms]
+  rw [C14_conforms_partial o w he]
   constructor
   · intro h
     simp only [Spec.connect, Spec.afterDb, Spec.createsDb, h, Bool.false_and, Bool.false_eq_true, if_false]
@@ -77,13 +97,13 @@ theorem C14_creates_only_allowed (o : Opts) (w : World) :
     the same name and storage with all its schemas and their content, in order (a schema may have been appended);
     every database file is still there; the search path of every other session's cursor is what it was, and the new
     session uses a fresh cursor. -/
-theorem C14_frame (o : Opts) (w : World) :
+theorem C14_frame (o : Opts) (w : World) (he : InEnv o w) :
     (∀ c ∈ w.attached, ∃ c' ∈ (connect o w).2.attached, c'.name = c.name ∧ c'.file = c.file ∧ c.schemas <+: c'.schemas) ∧
     w.disk <+: (connect o w).2.disk ∧
     (connect o w).2.paths.take w.paths.length = w.paths ∧
     (connect o w).2.paths.length = w.paths.length + 1 ∧
     (connect o w).2.nextConn = w.nextConn + 1 := by
-  rw [C14_conforms]
+  rw [C14_conforms_partial o w he]
   have hdisk : w.disk <+: (Spec.afterDb o w).disk := by
     unfold Spec.afterDb
     split
@@ -119,13 +139,13 @@ theorem C14_frame (o : Opts) (w : World) :
 
 /-- **Letter case does not matter**: two calls whose database and schema names differ only in letter case do
     exactly the same. -/
-theorem C14_letter_case (o o' : Opts) (w : World)
+theorem C14_letter_case (o o' : Opts) (w : World) (he : InEnv o w) (he' : InEnv o' w)
     (hd : o.database.map upper = o'.database.map upper) (hs : o.schema.map upper = o'.schema.map upper)
     (h1 : o.createDb = o'.createDb) (h2 : o.createSchema = o'.createSchema) (h3 : o.dbPath = o'.dbPath) :
     connect o w = connect o' w := by
   have e1 : o.db = o'.db := hd
   have e2 : o.sc = o'.sc := hs
-  rw [C14_conforms, C14_conforms]
+  rw [C14_conforms_partial o w he, C14_conforms_partial o' w he']
   have key : ∀ (db sc : Option Name) (a b c : Bool) (p q : Opts),
       p.db = db → p.sc = sc → p.createDb = a → p.createSchema = b → p.dbPath = c →
       q.db = db → q.sc = sc → q.createDb = a → q.createSchema = b → q.dbPath = c →
@@ -155,5 +175,12 @@ example :
        { attached := [⟨['X'], [(['T'], 7)], false⟩, ⟨['D', 'B'], [(['K'], 3), (['S'], 0)], true⟩],
          disk := [(['D', 'B'], [(['K'], 3)])],
          paths := [(0, some (['X'], ['T'])), (1, some (['D', 'B'], ['S']))], nextConn := 2 }) := by decide
+
+/-- non-vacuity of `InEnv`: connecting to a database named MAIN that already exists is inside the envelope, and gives it as
+    current database -/
+example :
+    let o : Opts := { database := some ['M', 'a', 'i', 'n'], schema := none, createDb := true, createSchema := true, dbPath := false }
+    let w : World := { attached := [⟨['M', 'A', 'I', 'N'], [], false⟩], disk := [], paths := [] }
+    InEnv o w ∧ (connect o w).1 = .ok ⟨some ['M', 'A', 'I', 'N'], none, true, false, 0⟩ := by decide
 
 end Fs.C14
